@@ -47,6 +47,12 @@ const (
 	KMaxVals    = "set_max_validators"
 	KClaimAll   = "claim_all"
 	KExportImp  = "export_import"
+	// validator life cycle: every native delegator of the validator (its operator included) removes
+	// its whole delegation — the validator is jailed for falling below its minimum self-delegation,
+	// unbonds, and is removed by x/staking once nothing is delegated to it any more
+	KValExit = "validator_exit"
+	// the operator of a removed validator creates it again (same operator address and consensus key)
+	KValCreate = "validator_create"
 )
 
 // Op is one concrete step of a history.
@@ -131,7 +137,12 @@ type Exec struct {
 	OwnerlessSeen map[string]bool
 	// AmpSeen: largest fixed-point amplification (oracle_value.go) observed per denom so far.
 	AmpSeen map[string]*big.Rat
-	Twin    *Exec
+	// RemovedWithStake: "validator index|denom" pairs (and denoms) of validators that x/staking
+	// removed while alliance delegations to them existed — the module deletes the validator's
+	// share record and the delegations are orphaned (listed finding F-C05d). Share accounting of
+	// such a pair is not judged afterwards (counted).
+	RemovedWithStake map[string]bool
+	Twin             *Exec
 	TwinRes *Res
 	ExportA []byte   // export of the original at the fork
 	ExportB []byte   // export of the re-imported twin at the fork
@@ -185,6 +196,12 @@ func (x *Exec) PrecisionCollapsed(denom string) bool {
 	}
 	a := x.AmpSeen[denom]
 	return a != nil && a.Cmp(big.NewRat(1_000_000, 1)) >= 0
+}
+
+// Orphaned: the position's validator was removed by x/staking while it carried alliance
+// delegations of that denom (listed finding F-C05d).
+func (x *Exec) Orphaned(v int, denom string) bool {
+	return x.RemovedWithStake[fmt.Sprintf("%d|%s", v, denom)]
 }
 
 func (x *Exec) Label(l string)    { x.Labels[l]++ }
@@ -556,6 +573,50 @@ func (x *Exec) run(op *Op) Res {
 	case KExportImp:
 		return x.direct(func(ctx sdk.Context) error {
 			return ExportImport(w, ctx)
+		})
+	case KValExit:
+		// each holder's undelegation is its own transaction; ok when at least one was accepted
+		holders := []sdk.AccAddress{w.ValOpAcc[op.V], w.GenAcc, w.NativeDel, w.NativeDel2}
+		out := Res{Err: "no native delegation to remove"}
+		for _, h := range holders {
+			h := h
+			r := x.tx(func(ctx sdk.Context) error {
+				del, err := w.App.StakingKeeper.GetDelegation(ctx, h, w.Vals[op.V])
+				if err != nil {
+					return err
+				}
+				val, err := w.App.StakingKeeper.GetValidator(ctx, w.Vals[op.V])
+				if err != nil {
+					return err
+				}
+				tok := val.TokensFromShares(del.Shares).TruncateInt()
+				if !tok.IsPositive() {
+					return fmt.Errorf("delegation worth nothing")
+				}
+				_, err = w.StakingMsgSrv.Undelegate(ctx, stakingtypes.NewMsgUndelegate(h.String(), w.Vals[op.V].String(), sdk.NewCoin(w.BondDenom, tok)))
+				return err
+			})
+			if r.OK {
+				if !out.OK {
+					out = r
+				} else {
+					out.Events = append(out.Events, r.Events...)
+				}
+			} else if r.Panic != "" && !out.OK {
+				out = r
+			}
+		}
+		return out
+	case KValCreate:
+		return x.tx(func(ctx sdk.Context) error {
+			msg, err := stakingtypes.NewMsgCreateValidator(w.Vals[op.V].String(), w.ValPub[op.V],
+				sdk.NewCoin(w.BondDenom, parseInt(op.Amt)), stakingtypes.Description{Moniker: fmt.Sprintf("v%d-again", op.V)},
+				stakingtypes.NewCommissionRates(parseDec(op.Frac), math.LegacyOneDec(), math.LegacyOneDec()), math.OneInt())
+			if err != nil {
+				return err
+			}
+			_, err = w.StakingMsgSrv.CreateValidator(ctx, msg)
+			return err
 		})
 	case KBlock:
 		return x.nextBlock(op)
